@@ -9,6 +9,10 @@ static EPOCH: OnceLock<Instant> = OnceLock::new();
 /// Monotonic milliseconds since first call. Safe to use for deadline arithmetic.
 #[must_use]
 pub fn now_ms() -> u64 {
+    #[cfg(feature = "__verif")]
+    if let Some(ms) = crate::verif_hooks::virtual_now_ms() {
+        return ms;
+    }
     EPOCH.get_or_init(Instant::now).elapsed().as_millis() as u64
 }
 
